@@ -5,6 +5,7 @@ import (
 	"fmt"
 	"math/rand/v2"
 	"strings"
+	"sync"
 	"sync/atomic"
 	"testing/synctest"
 	"time"
@@ -461,6 +462,8 @@ func tbSendReq(c *TBCase, b *natsim.Broker, h *Hist, out *Outcome) {
 		drops0 := drops.Load()
 		var got resprot.Response
 		var took time.Duration
+		var extMu sync.Mutex
+		var extGot, extAtReturn []time.Duration
 		fin := make(chan struct{})
 		start := time.Now()
 		go func() {
@@ -471,8 +474,17 @@ func tbSendReq(c *TBCase, b *natsim.Broker, h *Hist, out *Outcome) {
 			case "bad":
 				req = map[string]interface{}{"params": make(chan int)}
 			}
-			got = resprot.SendRequest(peer, call.Subject, req, time.Duration(call.TimeoutMs)*time.Millisecond)
+			got = resprot.SendRequest(peer, call.Subject, req, time.Duration(call.TimeoutMs)*time.Millisecond, func(d time.Duration) {
+				extMu.Lock()
+				extGot = append(extGot, d)
+				extMu.Unlock()
+			})
 			took = time.Since(start)
+			// what the extension callback has been told by the time the
+			// call returns
+			extMu.Lock()
+			extAtReturn = append([]time.Duration(nil), extGot...)
+			extMu.Unlock()
 			close(fin)
 		}()
 		returned := false
@@ -490,6 +502,7 @@ func tbSendReq(c *TBCase, b *natsim.Broker, h *Hist, out *Outcome) {
 			break
 		}
 		// timed model
+		var wantExt []time.Duration
 		want := "system.timeout"
 		var at time.Duration
 		sleep := time.Duration(call.SleepMs) * time.Millisecond
@@ -513,6 +526,7 @@ func tbSendReq(c *TBCase, b *natsim.Broker, h *Hist, out *Outcome) {
 					break
 				}
 				deadline = now + time.Duration(ms)*time.Millisecond
+				wantExt = append(wantExt, time.Duration(ms)*time.Millisecond)
 				now += sleep
 			}
 			now += sleep
@@ -536,6 +550,9 @@ func tbSendReq(c *TBCase, b *natsim.Broker, h *Hist, out *Outcome) {
 			h.Violate("C19", "inbox-message-lost", "channel-full", fmt.Sprintf("SendRequest(%+v) over real connections returned code %q after %v, the timed model expects %q after %v; nats.go reported a dropped message on the requester's connection", *call, gotCode, took, want, at))
 		} else if gotCode != want || took != at {
 			h.Violate("C19", "wrong-response", "tierb", fmt.Sprintf("SendRequest(%+v) over real connections returned code %q after %v, the timed model expects %q after %v", *call, gotCode, took, want, at))
+		}
+		if gotCode == want && took == at && drops.Load() == drops0 && call.Req == "" && fmt.Sprint(extAtReturn) != fmt.Sprint(wantExt) {
+			h.Violate("C19", "extension-callbacks", "tierb", fmt.Sprintf("SendRequest(%+v) over real connections returned as expected, but its extension callback had been told %v by then, expected %v", *call, extAtReturn, wantExt))
 		}
 		if call.Reply == "none" || want == "system.timeout" {
 			// let the handler of this call finish before the next one
